@@ -6,6 +6,7 @@ import (
 	"errors"
 	"fmt"
 	"io"
+	"net/http"
 	"net/http/httptest"
 	"net/url"
 	"sort"
@@ -67,6 +68,12 @@ type Case struct {
 	Dups      string `json:"dups"`       // "" | y | n
 	DupsQuery bool   `json:"dups_query"` // car-dups= in the URL instead of the Accept parameter
 	Order     string `json:"order"`      // "" | dfs | unk
+
+	// Backend selects the gateway under test: "" = NewBlocksBackend over the block store;
+	// "car" = NewCarBackend whose CarFetcher (NewRemoteCarFetcher) reaches, through an in-process
+	// http.RoundTripper, a trustless NewBlocksBackend gateway over the same block store.
+	Backend string `json:"backend,omitempty"`
+	Retry   bool   `json:"retry,omitempty"` // Backend=car: fetcher wrapped in NewRetryCarFetcher(..., 3) as in boxo's tests
 }
 
 const hamtFanout = 8
@@ -408,9 +415,30 @@ func run(c Case) kit.Result {
 		urlPath += "/" + s
 	}
 
-	backend, err := gateway.NewBlocksBackend(st.BSvc)
+	var backend gateway.IPFSBackend
+	backend, err = gateway.NewBlocksBackend(st.BSvc)
 	if err != nil {
 		return kit.Fail("harness: backend: %v", err)
+	}
+	var origin *originTransport
+	if c.Backend == "car" {
+		// the block-store gateway becomes the (trustless-only) origin; the gateway under test proxies it by CAR
+		origin = &originTransport{h: gateway.NewHandler(gateway.Config{MetricsRegistry: prometheus.NewRegistry()}, backend)}
+		fetcher, err := gateway.NewRemoteCarFetcher([]string{"http://origin.invalid"}, &http.Client{Transport: origin})
+		if err != nil {
+			return kit.Fail("harness: car fetcher: %v", err)
+		}
+		if c.Retry {
+			if fetcher, err = gateway.NewRetryCarFetcher(fetcher, 3); err != nil {
+				return kit.Fail("harness: retry fetcher: %v", err)
+			}
+		}
+		backend, err = gateway.NewCarBackend(fetcher, gateway.WithPrometheusRegistry(prometheus.NewRegistry()))
+		if err != nil {
+			return kit.Fail("harness: car backend: %v", err)
+		}
+	} else if c.Backend != "" {
+		return kit.Fail("harness: unknown backend %q", c.Backend)
 	}
 	h := gateway.NewHandler(gateway.Config{DeserializedResponses: c.Deser, MetricsRegistry: prometheus.NewRegistry()}, backend)
 
@@ -466,10 +494,28 @@ func run(c Case) kit.Result {
 	body := rec.Body.Bytes()
 
 	desc := fmt.Sprintf("GET %s?%s Accept=%q (terminal %s)", urlPath, req.URL.RawQuery, accept, term.cid)
+	if origin != nil {
+		desc = "CarBackend gateway (origin requests: " + strings.Join(origin.log, " | ") + "): " + desc
+	}
 	fail := func(format string, a ...any) kit.Result {
 		return kit.Fail("%s -> status %d, %d body bytes, X-Stream-Error=%q: %s", desc, status, len(body), rec.Header().Get("X-Stream-Error"), fmt.Sprintf(format, a...))
 	}
 	classes := []string{"fmt:" + c.Format, fmt.Sprintf("depth:%d", len(c.Path))}
+	if se := rec.Header().Get("X-Stream-Error"); se != "" {
+		// The handler reports a failed stream in a header it documents as unreliable ("we suggest client always
+		// verify that the received CAR stream response is matching requested DAG selector"): the statement is about
+		// the content of the response, so the body is judged like any other; the case is only labelled.
+		classes = append(classes, "stream_error", "stream_error:"+se[strings.LastIndex(se, ": ")+1:])
+	}
+	if origin != nil {
+		classes = append(classes, fmt.Sprintf("origin_requests:%d", len(origin.log)))
+		for _, l := range origin.log {
+			if !strings.HasPrefix(l, "200 ") {
+				classes = append(classes, "origin:non200")
+				break
+			}
+		}
+	}
 	if term.spec.File != nil {
 		classes = append(classes, "term:file")
 	} else if term.spec.Dir.HAMT {
@@ -676,6 +722,24 @@ func run(c Case) kit.Result {
 	return kit.Result{NonTrivial: nt, Classes: classes}
 }
 
+// originTransport is the in-process wire between the CarBackend's remote fetcher and the origin
+// gateway: every outgoing request is served by the origin handler into a ResponseRecorder.
+type originTransport struct {
+	h   http.Handler
+	log []string
+}
+
+func (o *originTransport) RoundTrip(r *http.Request) (*http.Response, error) {
+	sr := httptest.NewRequest(r.Method, r.URL.String(), nil).WithContext(r.Context())
+	sr.Header = r.Header.Clone()
+	rec := httptest.NewRecorder()
+	o.h.ServeHTTP(rec, sr)
+	o.log = append(o.log, fmt.Sprintf("%d %s", rec.Code, r.URL.RequestURI()))
+	resp := rec.Result()
+	resp.Request = r
+	return resp, nil
+}
+
 // readWhole reads the complete terminal file from the offline store with the real DagReader.
 func readWhole(ctx context.Context, off *kit.GwStore, term *built, what string) string {
 	nd, err := off.DAG.Get(ctx, term.cid)
@@ -704,3 +768,20 @@ var spec = kit.Spec[Case]{
 }
 
 func TestProp(t *testing.T) { kit.All(t, spec) }
+
+// genProxy: the same trees and requests, served by a gateway that itself proxies a trustless gateway by CAR.
+func genProxy(t *rapid.T) Case {
+	c := gen(t)
+	c.Backend = "car"
+	c.Retry = rapid.Bool().Draw(t, "retry")
+	return c
+}
+
+var specProxy = kit.Spec[Case]{
+	Prop: "C31", Name: "proxy",
+	Rule:  "same trees, paths and request grammar as 'main', but the gateway under test is gateway.NewHandler over NewCarBackend(NewRemoteCarFetcher[, NewRetryCarFetcher 3]) whose http.Client transport serves every fetch in-process (httptest recorder, no sockets) from a trustless-only NewHandler/NewBlocksBackend gateway over the block store; the identical raw/CAR oracle (root, hashes, dups, offline path re-resolution, scope sufficiency) is applied to the proxy's response; non-trivial as in 'main'",
+	Quick: 600, Thorough: 4000,
+	Gen: genProxy, Run: run,
+}
+
+func TestPropProxy(t *testing.T) { kit.All(t, specProxy) }
